@@ -34,6 +34,10 @@ CHECKS = {
          "generator converts rates and durations; R1 elapsed time from UTC instants", "bounded exhaustive scenario enumeration + metamorphic oracle over all unit pairs", "2 C12"),
  "C15": ("E3 product of 3-step histories [set-up+optimise, rebuild with fixed window, re-optimise]: 8 portfolios (incl. several rows per variable, MIP, order book, coarse / periodic, structured) x all 16 index masks (array / list) + 8 date positions (datetime / date) x new prices x grid passed / set previously; exact bound equality, re-solve equality, value equality with unchanged prices",
          "a variable belongs to the window if one of its rows does; the step at the date itself is left open", "full product enumeration of windows x portfolios over 3-step histories", "2 C15"),
+ "C16": ("E1 over scaled storage / contract / must-run / take contract / transport at fixed scales and free scale, normalisations, cost rates, windows, and structured assets with one or two external nodes, own and inner windows; differential against the generator-built plain portfolio x s/S (value minus s x rate x active duration, dispatch via plug-in), free scale = best fixed scale, structured = flat portfolio",
+         "scaled and base asset share the window; R1 active duration; R2 plug-in", "bounded exhaustive scenario enumeration + differential oracle against the equivalent plain portfolio", "2 C16"),
+ "C18": ("E1 LP portfolios (incl. split mode, structured wrappers, nodes without dispatch at some steps) x EVERY (node, step) with a reported price x both signs of a small injection realised by an extra must-run contract; V(d) <= V(0) + price*d on every perturbation",
+         "valid for any optimal dual (degeneracy-proof); V(d) from the real code with HiGHS; d = +-0.05", "bounded exhaustive scenario enumeration x all (node, step, sign) perturbations", "2 C18"),
 }
 
 def main():
